@@ -5,6 +5,7 @@ from ..interp_prop import InterpProp
 
 class C03(InterpProp):
     id = 'C03'
+    anomaly_tags = ('macro',)
     # observables compared with the model (see InterpProp.normalize)
     cmp_eff = ('exit', 'action', 'entry')
     cmp_step = None
@@ -42,14 +43,14 @@ class C03(InterpProp):
             res.violations.append('step %d: executed code %s differs from what the MacroStep says %s'
                                   % (k, oracles.exec_effects(r['eff'])[:8], oracles.replay_effects(step)[:8]))
         active = set(info['cfg0'])
-        depth = sc.depth_for
+        depth = oracles.tree(sc).depth_for
         for m in step['steps']:
             ex, en = m['exited'], m['entered']
             for i, a in enumerate(ex):
                 if a not in active:
                     res.violations.append('step %d: exit of inactive state %s' % (k, a))
                 for b in ex[i + 1:]:
-                    if b in sc.descendants_for(a):
+                    if b in oracles.tree(sc).descendants_for(a):
                         res.violations.append('step %d: %s exited before its descendant %s' % (k, a, b))
                     if depth(a) == depth(b) and not a < b and m['transition'] is not None:
                         res.violations.append('step %d: same-depth exits not in name order: %s' % (k, ex))
@@ -57,7 +58,7 @@ class C03(InterpProp):
                         res.violations.append('step %d: exits not innermost-first: %s' % (k, ex))
             for i, a in enumerate(en):
                 for b in en[i + 1:]:
-                    if b in sc.ancestors_for(a):
+                    if b in oracles.tree(sc).ancestors_for(a):
                         res.violations.append('step %d: %s entered before its ancestor %s' % (k, a, b))
                     if sc.parent_for(a) == sc.parent_for(b) and not a < b:
                         res.violations.append('step %d: sibling entries not in name order: %s' % (k, en))
